@@ -626,7 +626,11 @@ def oracle_splice(c, r):
     if not align:
         if not (T.close(s, a) and T.close(e - s, len(G) / rate)):
             return Failure(dict(sig, clause="new-interval-position"), f"new interval [{s},{e}] expected [{a},{a + len(G) / rate}]")
-        if inserted != G:
+        # the interval covers the inserted audio to within the sample grid: at an exact half-sample start both
+        # neighbouring samples are "the nearest one" (round() goes to the even one)
+        import math
+        starts = {math.floor(s * rate), math.ceil(s * rate), i}
+        if not any(S2[k:k + len(G)] == G for k in starts if k >= 0):
             return Failure(dict(sig, clause="covers-inserted-audio"), f"audio under the new interval [{s},{e}] is not the splice segment")
         k = round(a * rate)
         k2 = k if b is None else round(b * rate)
